@@ -141,8 +141,12 @@ func SwapUint32(addr *uint32, v uint32) uint32     { return swap(32, addr, v, ra
 func SwapUint64(addr *uint64, v uint64) uint64     { return swap(64, addr, v, ra.SwapUint64) }
 func SwapUintptr(addr *uintptr, v uintptr) uintptr { return swap(64, addr, v, ra.SwapUintptr) }
 
-func CompareAndSwapInt32(addr *int32, o, n int32) bool { return cas(32, addr, o, n, ra.CompareAndSwapInt32) }
-func CompareAndSwapInt64(addr *int64, o, n int64) bool { return cas(64, addr, o, n, ra.CompareAndSwapInt64) }
+func CompareAndSwapInt32(addr *int32, o, n int32) bool {
+	return cas(32, addr, o, n, ra.CompareAndSwapInt32)
+}
+func CompareAndSwapInt64(addr *int64, o, n int64) bool {
+	return cas(64, addr, o, n, ra.CompareAndSwapInt64)
+}
 func CompareAndSwapUint32(addr *uint32, o, n uint32) bool {
 	return cas(32, addr, o, n, ra.CompareAndSwapUint32)
 }
